@@ -92,9 +92,8 @@ pub fn contents(boundary: &str) -> Vec<Content> {
     ]
 }
 
+/// size of the general content alphabet (id N_CONTENTS itself is the long content of the limit sets)
 pub const N_CONTENTS: usize = 17;
-/// number of contents that keep the body well-formed (prefix of the alphabet)
-pub const N_PLAIN: usize = 15;
 
 #[derive(Clone, Copy, PartialEq, Eq, Hash, Debug, Serialize, Deserialize)]
 pub enum RegionKind {
@@ -186,7 +185,13 @@ pub fn generate(spec: &BodySpec) -> Body {
             headers.push((n.to_ascii_lowercase(), v.into_bytes()));
         };
         match spec.flavour {
-            Flavour::Mixed => put(&mut out, "a", "1".into()),
+            Flavour::Mixed => {
+                put(&mut out, "a", "1".into());
+                if i % 2 == 1 {
+                    // repeated header name: both values must be delivered, in order
+                    put(&mut out, "a", "2".into());
+                }
+            }
             Flavour::Form => {
                 let nm = format!("f{i}");
                 match i % 3 {
